@@ -99,7 +99,7 @@ TABLE = {
     ],
     "C06": [
         ("replace_na-in-place", VE, "        vector = self.copy()\n        vector[vector.is_na()] = value", "        vector = self\n        vector[vector.is_na()] = value", V, "OWN-2"),
-        ("select-no-copy", DF, "            yield colname, self[colname].copy()", "            yield colname, self[colname]", V, "OWN-1"),
+        ("select-no-copy", DF, "        for colname in colnames:\n            yield colname, self[colname].copy()", "        for colname in colnames:\n            yield colname, self[colname]", V, "OWN-1"),
         ("deepcopy-shallow", DF, "        return self.__class__({k: v.copy() for k, v in self.items()})", "        return self.__class__({k: v for k, v in self.items()})", V, "OWN-1"),
         ("cbind-yields-reconciled", DF, "                yield colname, column.copy()\n\n    def _check_dimensions", "                yield colname, column\n\n    def _check_dimensions", V, "OWN-1"),
         ("count-groups-receiver", DF, "        return self.copy().group_by(*colnames).aggregate(n=dataiter.count())", "        return self.group_by(*colnames).aggregate(n=dataiter.count())", V, "OWN-3"),
